@@ -120,7 +120,7 @@ func LeafValues(t Type, n int) []Val {
 		out = []Val{
 			AnyObjV(),
 			AnyObjV(KV{"a", IntV(1)}),
-			AnyObjV(KV{"a", StrV("x")}, KV{"b", ListV(IntV(1), IntV(2))}),
+			AnyObjV(KV{"a", StrV("x")}, KV{"b", ListV(IntV(1), IntV(2))}, KV{"f", FloatV(2.5)}),
 			AnyObjV(KV{"k", ObjV(KV{"z", BoolV(true)})}),
 		}
 	}
@@ -446,6 +446,10 @@ func Literal(v Val, t Type) (string, bool) {
 			}
 			parts[i] = s
 		}
+		if len(parts) == 0 {
+			// an empty list literal has no element type of its own
+			return "([] as [" + t.Elem.Src() + "])", true
+		}
 		return "[" + strings.Join(parts, ", ") + "]", true
 	case VObj:
 		parts := make([]string, len(v.Keys))
@@ -538,4 +542,165 @@ func SortedStrings(xs []string) []string {
 	out := append([]string{}, xs...)
 	sort.Strings(out)
 	return out
+}
+
+// ---------------------------------------------------------------------------------------------
+// Pools for the equality / clone / serialisation laws (C13)
+// ---------------------------------------------------------------------------------------------
+
+// TypedPos is a position inside a typed value together with the static type at that position.
+type TypedPos struct {
+	Path Path
+	T    Type
+	V    Val
+}
+
+// TypedPositions lists every position of a value of type t with its static type (pre-order).
+// The content of any-objects is untyped and not descended into.
+func TypedPositions(v Val, t Type) []TypedPos {
+	var out []TypedPos
+	var walk func(v Val, t Type, p Path)
+	walk = func(v Val, t Type, p Path) {
+		out = append(out, TypedPos{Path: p, T: t, V: v})
+		switch t.K {
+		case TList:
+			for i, e := range v.Elems {
+				walk(e, *t.Elem, p.index(i))
+			}
+		case TOpt:
+			if v.K == VSome {
+				walk(*v.Inner, *t.Elem, p.inner())
+			}
+		case TObj:
+			for _, f := range t.Fields {
+				if x, ok := v.Get(f.Name); ok {
+					walk(x, f.T, p.field(f.Name))
+				}
+			}
+		}
+	}
+	walk(v, t, nil)
+	return out
+}
+
+// AnyObjVariants returns near misses of an any-object value that are any-objects again: a key on
+// one side only (added / removed), a changed value under the same key. withClash adds variants in
+// which the same key holds a value of a different kind.
+func AnyObjVariants(v Val, withClash bool) []Val {
+	var out []Val
+	out = append(out, v.With("zz", IntV(1)))
+	if len(v.Keys) > 0 {
+		last := v.Keys[len(v.Keys)-1]
+		out = append(out, v.Without(last))
+		cur, _ := v.Get(last)
+		switch cur.K {
+		case VInt:
+			out = append(out, v.With(last, IntV(cur.I+1)))
+		case VStr:
+			out = append(out, v.With(last, StrV(cur.S+"!")))
+		case VList:
+			out = append(out, v.With(last, ListV(append(append([]Val{}, cur.Elems...), IntV(9))...)))
+		case VObj:
+			out = append(out, v.With(last, cur.With("q", IntV(0))))
+		}
+		if withClash {
+			switch cur.K {
+			case VStr:
+				out = append(out, v.With(last, IntV(1)))
+			default:
+				out = append(out, v.With(last, StrV("s")))
+			}
+		}
+	}
+	return out
+}
+
+// EqPool returns up to max values of type t built so that equal values, values differing in one
+// position only (last element, one field, Some vs none, inclusive vs exclusive range, a key on one
+// side only for any-objects) and unrelated values all occur. clash: also any-objects that hold
+// values of different kinds under the same key.
+func EqPool(t Type, width, max int, clash bool) []Val {
+	seen := map[string]bool{}
+	var out []Val
+	add := func(v Val) {
+		if !HasType(v, t) {
+			return
+		}
+		k := v.String()
+		if !seen[k] {
+			seen[k] = true
+			out = append(out, v)
+		}
+	}
+	typed := Typed(t, width)
+	for _, v := range typed {
+		add(v)
+	}
+	for _, v := range typed {
+		for _, tp := range TypedPositions(v, t) {
+			for _, alt := range Typed(tp.T, 2) {
+				add(replaceAt(v, tp.Path, alt))
+			}
+			switch tp.T.K {
+			case TList:
+				if n := len(tp.V.Elems); n > 0 {
+					add(replaceAt(v, tp.Path, ListV(tp.V.Elems[:n-1]...)))
+					add(replaceAt(v, tp.Path, ListV(append(append([]Val{}, tp.V.Elems...), tp.V.Elems[0])...)))
+				}
+			case TAnyObj:
+				for _, alt := range AnyObjVariants(tp.V, clash) {
+					add(replaceAt(v, tp.Path, alt))
+				}
+			case TRange:
+				add(replaceAt(v, tp.Path, RangeV(tp.V.RS, tp.V.RE, !tp.V.RIncl)))
+				add(replaceAt(v, tp.Path, RangeV(tp.V.RS, tp.V.RE+1, tp.V.RIncl)))
+			case TFloat:
+				add(replaceAt(v, tp.Path, FloatV(float64(tp.V.F)+0.5)))
+			case TInt:
+				if tp.V.I < math.MaxInt64 {
+					add(replaceAt(v, tp.Path, IntV(tp.V.I+1)))
+				}
+				add(replaceAt(v, tp.Path, IntV(1<<53+1)))
+				add(replaceAt(v, tp.Path, IntV(math.MaxInt64)))
+			}
+		}
+	}
+	if max > 0 && len(out) > max {
+		// keep the typed pool, then an even stride over the variants
+		keep := append([]Val{}, out[:len(typed)]...)
+		rest := out[len(typed):]
+		want := max - len(keep)
+		for i := 0; i < want; i++ {
+			keep = append(keep, rest[i*len(rest)/want])
+		}
+		out = keep
+	}
+	return out
+}
+
+// KindClash reports whether two values hold values of different kinds under the same any-object
+// key somewhere (comparing them takes the implementation outside "values of one static type"
+// only in the untyped content of {?}).
+func KindClash(a, b Val) bool {
+	isOpt := func(k VKind) bool { return k == VNone || k == VSome }
+	if a.K != b.K {
+		return !(isOpt(a.K) && isOpt(b.K))
+	}
+	switch a.K {
+	case VList:
+		for i := range a.Elems {
+			if i < len(b.Elems) && KindClash(a.Elems[i], b.Elems[i]) {
+				return true
+			}
+		}
+	case VObj, VAnyObj:
+		for i, k := range a.Keys {
+			if x, ok := b.Get(k); ok && KindClash(a.Vals[i], x) {
+				return true
+			}
+		}
+	case VSome:
+		return KindClash(*a.Inner, *b.Inner)
+	}
+	return false
 }
